@@ -334,11 +334,14 @@ func (s *Scanner) scanComment() (token.Token, string) {
 		s.buf.WriteRune(s.ch)
 		s.next()
 	}
-	if s.state != scanTextBlock {
+	if s.state != scanTextBlock && s.state != scanEnd {
 		if s.ch == '\n' {
 			s.next()
 		}
-		s.state = scanBlockStart
+		if s.state != scanEnd {
+			// do not resume scanning after the end of input
+			s.state = scanBlockStart
+		}
 	}
 	return token.COMMENT, s.buf.String()
 }
